@@ -51,7 +51,8 @@ def generate(seed, run, tier):
             ops.append(['hold', r.choice([['NoneGridObject'], ['Key', r.choice(COLORS)], ['Box', ['Key', 'RED']], ['Wall']])])
         ops.append(['read', r.choice(['real', 'uniform', 'first', 'last', 'mixed']), r.randrange(2**31), r.random() < 0.4])
     return {'property': PROP, 'seed': seed, 'run': run, 'tier': tier, 'debug': r.random() < 0.5, 'world': world,
-            'obs': {'name': name, 'area': area}, 'via_factory': r.random() < 0.5, 'ops': ops}
+            'obs': {'name': name, 'area': area}, 'via_factory': r.random() < 0.5, 'ops': ops,
+            'alias_objects': stream(seed, PROP, run, 'alias').random() < 0.15}
 
 
 def execute(record, ctx):
